@@ -260,6 +260,11 @@ def r3(ctx, F, bs):
             os_ = fl.origins(nop, mut_calls=True)
             pushes = sorted({o.bb for o in os_ if o.kind == 'mutcall' and o.key.split('::')[-1] in ('push', 'push_str')})
             base = {o for o in fl.origins(nop) if o.kind != 'comb'}
+            searched = sorted({str(o.key).split('::')[-1] for o in base if o.kind == 'call' and str(o.key).startswith('std::iter::Iterator::')})
+            if searched:
+                # `(0..).map(name).find(free)`: the name is what an iterator search returned - the template is not read through it
+                unknown.append('the name is the result of an iterator search (%s)' % ', '.join(searched))
+                continue
             if not bs.is_param(base, 'rel'):
                 problems.append('the name does not start from the conflicting path (%s)' % sorted({'%s:%s' % (o.kind, o.key) for o in base}))
             order = sorted(pushes, key=lambda x: sum(1 for y in pushes if y != x and cfg.dominates(y, x)))
